@@ -9,13 +9,16 @@ from .core_replay import replay_path
 from .pool import pmap
 
 
-def explore(cfg, workers=1, timeout=3600, heap="8g"):
-    res = tlc.run_tlc("core", "Geoh5Core", cfg, workers=workers, timeout=timeout, heap=heap)
+def explore(cfg, workers=1, timeout=3600, heap="8g", simulate=None, depth=None, seed=None):
+    res = tlc.run_tlc("core", "Geoh5Core", cfg, workers=workers, timeout=timeout, heap=heap,
+                      simulate=simulate, depth=depth, seed=seed)
     if not res.ok:
         raise tlc.MachineryError(f"TLC reports {res.violated} on {cfg}: the specification violates its own "
                                  f"invariants\n{res.raw_tail[-3000:]}")
     g = tlc.build_graph(res.lines)
-    init = graph.split_init(res.lines)
+    init = graph.split_init(res.lines, first_only=True)   # Geoh5Core has a single initial state
+    if simulate:
+        res.distinct = len(g.states)
     return res, g, init
 
 
@@ -44,10 +47,18 @@ def run_cfgs(prop, cfgs, seed, max_paths=None, variants=9):
     total_paths = total_steps = total_edges = covered_edges = 0
     acts = {}
     for cfg in cfgs:
-        res, g, init = explore(cfg)
+        sim = None
+        if isinstance(cfg, (tuple, list)):
+            cfg, sim = cfg
+        if sim:   # random simulation with larger constants: behaviours of `depth` steps
+            res, g, init = explore(cfg, simulate=f"num={sim['num']}", depth=sim["depth"], seed=seed + 1)
+            cfg = cfg + f"[simulate num={sim['num']} depth={sim['depth']}]"
+            items, n_cov = make_items(g, init, prop, seed, max_paths=None, max_len=sim["depth"] + 1, variants=variants)
+        else:
+            res, g, init = explore(cfg)
+            items, n_cov = make_items(g, init, prop, seed, max_paths=max_paths, variants=variants)
         states += res.distinct
         trans += res.generated
-        items, n_cov = make_items(g, init, prop, seed, max_paths=max_paths, variants=variants)
         t1 = time.time()
         out = pmap(replay_path, items)
         v = [x for r in out for x in r]
